@@ -130,7 +130,7 @@ def gen_session(rng, n_ops):
         ts2 = tsderive.derive(rng, sb, ts, sh, kind)
         sh2 = copy.deepcopy(sh)
         # (which of two identical definitions on one chain counts as the own one may depend on the merge order)
-        own = kind not in ("merge-reparent",)
+        own = kind not in ("merge-reparent", "merge-reparent-again")
 
         def own_ok(t_):
             # a feature that a type declares although an ancestor declares it identically (declared on the subtype first) is
